@@ -207,10 +207,11 @@ func (s *sub) describe() map[string]interface{} {
 // ---- trial -----------------------------------------------------------------
 
 type trial struct {
-	r     *vlib.Run
-	mode  string
-	num   int
-	scale int
+	r        *vlib.Run
+	mode     string
+	num      int
+	scale    int
+	peerDups bool
 
 	procs   int
 	D, K    int
@@ -307,6 +308,7 @@ func newTrial(r *vlib.Run, mode string, num int, rng *rand.Rand, scale int) *tri
 		t.timeout = time.Duration(20*scale) * time.Millisecond
 	}
 	t.maxSlp = time.Duration([]int{0, 0, 20, 100}[rng.Intn(4)]) * time.Microsecond
+	t.peerDups = rng.Intn(4) == 0
 
 	// Leaves: fixed depth 2, leaf 0 under "a".
 	for i := 0; i < t.D; i++ {
@@ -587,6 +589,10 @@ func (t *trial) updateLeaf(l *leaf, split bool) {
 	} else {
 		n = gen.Update(target, "", t.ts, nil, gen.Path(false, l.path...), gen.I(t.ctr))
 	}
+	if t.peerDups {
+		n.Update[0].Duplicates = peerDup
+		t.r.Count("updates_written_with_a_peer_set_duplicates_value", 1)
+	}
 	call := t.now()
 	t.gnmi(n)
 	t.noteTicks(l, call, t.now())
@@ -682,13 +688,21 @@ func (t *trial) writeSentinels(g int) {
 
 // ---- observation helpers ---------------------------------------------------
 
+// peerDup: in a quarter of the trials every scalar update the writer sends
+// already carries this value in its (peer-settable) duplicates field. A
+// response into which nothing was coalesced hands it on as it is (tolerated:
+// the statement speaks about subscribers that resume after a stall); a response
+// into which c updates were coalesced must say c, not c plus the peer's value.
+const peerDup = 1 << 20
+
 type rmsg struct {
-	sync bool
-	key  string
-	del  bool
-	val  int64
-	dup  uint32
-	ok   bool
+	peerAdded bool // duplicates = the peer's value plus something
+	sync      bool
+	key       string
+	del       bool
+	val       int64
+	dup       uint32
+	ok        bool
 
 	atomic bool
 }
@@ -710,7 +724,14 @@ func parse(m *pb.SubscribeResponse) rmsg {
 	pre := model.IndexPath(n.GetPrefix())
 	if len(n.Update) == 1 {
 		u := n.Update[0]
-		return rmsg{key: model.Key(append(append([]string{}, pre...), model.IndexPath(u.GetPath())...)), val: u.GetVal().GetIntVal(), dup: u.GetDuplicates(), ok: true}
+		dup, added := u.GetDuplicates(), false
+		switch {
+		case dup == peerDup:
+			dup = 0 // handed on uncoalesced
+		case dup > peerDup:
+			dup, added = dup-peerDup, true
+		}
+		return rmsg{key: model.Key(append(append([]string{}, pre...), model.IndexPath(u.GetPath())...)), val: u.GetVal().GetIntVal(), dup: dup, peerAdded: added, ok: true}
 	}
 	return rmsg{key: model.Key(append(append([]string{}, pre...), model.IndexPath(n.Delete[0])...)), del: true, ok: true}
 }
@@ -1680,6 +1701,10 @@ func (t *trial) judge(s *sub) bool {
 		}
 		if a.seen && !a.lastDel && pm.val < a.lastVal {
 			fail("older-value-after-newer", fmt.Sprintf("response #%d carries %v=%d after %d had been delivered", i, l.path, pm.val, a.lastVal), nil)
+			return false
+		}
+		if pm.peerAdded {
+			fail("dup-count-includes-peer-value", fmt.Sprintf("response #%d carries %v=%d with duplicates = %d + %d: the count a peer had put into the stored update was added to the number of updates coalesced into the response", i, l.path, pm.val, peerDup, pm.dup), nil)
 			return false
 		}
 		a.sum += 1 + int(pm.dup)
